@@ -31,7 +31,7 @@ ANCHORS = [
     "job_shop_lib.dispatching.feature_observers._is_completed_observer:IsCompletedObserver.update",
 ]
 ASSUMPTIONS = ["positive durations (property scope); later episodes are C12's business"]
-REQUIRED_COUNTERS = {"states_checked": 1500, "final_all_removed_checks": 50,
+REQUIRED_COUNTERS = {"abandoned_episodes": 50, "states_checked": 1500, "final_all_removed_checks": 50,
                      "builder_disjunctive": 50, "builder_agent_task": 50,
                      "builder_with_jobs": 50, "builder_complete": 50}
 WORKERS = {"quick": 1, "thorough": 14}
@@ -48,6 +48,7 @@ def gen_cases(ctx):
         c["rm_machines"] = rng.random() < 0.75
         c["rm_jobs"] = rng.random() < 0.75
         c["initial_reset"] = rng.random() < 0.3
+        c["abandon_after"] = rng.choice([None, None, 1, 2, 3, rng.randint(1, 8)])
         yield c
 
 
@@ -73,7 +74,16 @@ def run_case(ctx, case):
     nontrivial = False
     w0 = {"builder": case["builder"], "options": [case["rm_machines"], case["rm_jobs"]],
           "filter": run.filter_names}
+    abandon = case.get("abandon_after")
     while not run.done():
+        if abandon is not None and len(r.history) >= abandon:
+            # abandon the episode (possibly with operations in progress) and start over
+            abandon = None
+            d.reset(); r.reset(); prev_removed = set()
+            ctx.count("abandoned_episodes")
+            if any(upd.job_shop_graph.removed_nodes):
+                ctx.violation("c17_nodes_removed_right_after_reset", dict(w0))
+            continue
         pol = case["policy"]
         o, m = run.choose(rng, pol if pol != "mixed" else rng.choice(gen.POLICIES))
         run.dispatch(o, m)
